@@ -21,6 +21,7 @@ RULE = (
     "of all single-pair histories of length <= 3 over 3 nodes (<= 4 thorough), each saved and reloaded. Oracle: as written -> per-module "
     "in/out tables and slots equal up to trailing freed slots, C07 consistency, edge set == model; SLnK removed -> edge set == model and "
     "C07 consistency. non-trivial = saved graph has a freed slot in the middle, a cycle, fan-in >= 3, or a mixed present/absent SLnK file"
+    ' Also (added while the seeded-change rounds of DESIGN section 9 ran): Also: big projects and wide fan-outs as in C07, files written as older versions, and at the end of every history the same file with the sections of unlinked modules emptied (empty positions).'
 )
 ASSUMPTIONS = [
     "slot positions are claimed only when the file carries SLnK as the library wrote it; with SLnK removed only graph + consistency are claimed",
